@@ -5,6 +5,7 @@ following a recorded decision prefix ("plan"); at a new branch point both outcom
 for feasibility with the solver and the infeasible side is pruned.  Limits are *unwinding
 assertions*: hitting one makes the run inconclusive, never a pass.
 """
+import os
 import time
 import z3
 
@@ -264,14 +265,52 @@ class Ctx:
 
     def concretize(self, e, why):
         """Replace a symbolic term by one solver-chosen value (adds e == v to the path).
-        Marks the run incomplete: a later 'no violation' is then not a verdict."""
+        Marks the run incomplete: a later 'no violation' is then not a verdict.
+        Before falling back to an arbitrary model value, boundary values built from the integer literals of the
+        repository function that forced the concretisation (c^k - 1, c^k, c^k + 1) are tried, one path each: code
+        that leaves the modelled subset (floats, C helpers) typically misbehaves exactly there."""
+        self.incomplete.append(why)
+        for cand in _boundary_candidates(e):
+            try:
+                c = (e == cand)
+            except Exception:
+                break
+            if self.decide(c):
+                return z3.BitVecVal(cand, e.size()) if z3.is_bv(e) else z3.IntVal(cand)
         r = self.check()
         if r != "sat":
             raise Infeasible() if r == "unsat" else SolverUnknown(why)
         v = self.last_solver.model().eval(e, model_completion=True)
         self.add(e == v)
-        self.incomplete.append(why)
         return v
+
+
+def _boundary_candidates(e, limit=36):
+    import sys
+    repo = os.environ.get("VERIF_REPO", "/repo")
+    f = sys._getframe(2)
+    consts = set()
+    depth = 0
+    while f is not None and depth < 60:
+        if f.f_code.co_filename.startswith(repo):
+            for c in f.f_code.co_consts:
+                if isinstance(c, int) and not isinstance(c, bool) and 2 <= c <= 1 << 16:
+                    consts.add(c)
+            break
+        f = f.f_back
+        depth += 1
+    out = []
+    maxbits = e.size() - 1 if z3.is_bv(e) else 600
+    for c in sorted(consts):
+        k = 1
+        v = c
+        while v.bit_length() <= maxbits and k <= 80:
+            if k >= 2:
+                out.extend([v - 1, v, v + 1])
+            v *= c
+            k += 1
+    out.sort()
+    return out[:max(limit, 72)]
 
 
 def _second_opinion(solver):
